@@ -33,7 +33,7 @@ const (
 	clOther                  // anything else: must only return
 )
 
-var alphabet = []string{"@", "@@", `"a"`, `'b'`, "Ident", "Nope", "(", ")", "[", "]", "{", "}", "|", "?", "*", "+", "!", "~", "(?=", "(?!", ":", "#", `"unterminated`}
+var alphabet = []string{"@", "@@", `"a"`, `'b'`, "Ident", "Nope", "(", ")", "[", "]", "{", "}", "|", "?", "*", "+", "!", "~", "(?=", "(?!", ":", "#", `"unterminated`, "'", "`raw", "'x"}
 
 type rec struct {
 	toks []string
@@ -195,7 +195,7 @@ func orStr(a, b string) string {
 // classify a whole token stream (the concatenation of all field tags).
 func classify(toks []string) (class, string) {
 	for _, t := range toks {
-		if t == `"unterminated` || t == "#" {
+		if t == `"unterminated` || t == "#" || t == "'" || t == "`raw" || t == "'x" {
 			return clOther, "lexically odd token"
 		}
 	}
@@ -324,6 +324,23 @@ func soupJob(w *hx.Worker, first int, maxLen int, only string) {
 				w.Case(func() string { return key })
 				judge(w, key, cl, why, tryBuild(v))
 				w.DistinctS(why + fmt.Sprint(cl))
+				// the same fields with a tagged field whose tag yields NO tokens (blank / comment only) in front,
+				// in between and behind: the token stream is unchanged, so is the expected class
+				if len(toks) <= 2 {
+					for _, blank := range []string{" ", "/* reserved */"} {
+						for pos := 0; pos <= len(tags); pos++ {
+							t3 := append(append(append([]string{}, tags[:pos]...), blank), tags[pos:]...)
+							k3 := fmt.Sprintf("soup form=%d tags=%q", form, t3)
+							if only != "" && only != k3 {
+								continue
+							}
+							if v3, ok := structOf(form, t3, strT); ok {
+								w.Case(func() string { return k3 })
+								judge(w, k3, cl, why, tryBuild(v3))
+							}
+						}
+					}
+				}
 			}
 		}
 		if len(seq) < maxLen && !exact {
@@ -526,6 +543,17 @@ type NegStruct struct {
 type LookRec struct {
 	L *LookRec `(?= @@ ) "x"`
 }
+type StmtRoot struct {
+	E *LRExpr `@@ ";"`
+}
+type LRExpr struct {
+	V string  `( @Ident`
+	L *LRExpr `| @@ "+" Ident )`
+}
+type StmtRoot2 struct {
+	A string  `"pass" ";"`
+	E *LRExpr `| @@ ";"`
+}
 type StarSelf struct {
 	S []*StarSelf `@@*`
 	X string      `"x"`
@@ -541,6 +569,7 @@ var corpus = []struct {
 	{"NoTags", NoTags{}, clMalformed}, {"OnlyUnexported", OnlyUnexported{}, clMalformed}, {"AnonField", AnonField{}, clOther}, {"AnonRec", AnonRec{}, clOther},
 	{"EmbeddedPtr", EmbeddedPtr{}, clOther}, {"SelfEmbed", SelfEmbed{}, clValid}, {"DeepPtr", DeepPtr{}, clOther}, {"BadThenRec", BadThenRec{}, clMalformed},
 	{"NegStruct", NegStruct{}, clOther}, {"LookRec", LookRec{}, clOther}, {"StarSelf", StarSelf{}, clOther},
+	{"StmtRoot (left recursion below the root)", StmtRoot{}, clOther}, {"StmtRoot2", StmtRoot2{}, clOther},
 	{"*RightRec", &RightRec{}, clValid}, {"string", "x", clOther}, {"int", 3, clOther}, {"[]RightRec", []RightRec{}, clOther}, {"map", map[string]int{}, clOther}, {"nil-func", (func())(nil), clOther},
 }
 
